@@ -1,5 +1,6 @@
 import LicenseExpr.Lemmas.BSound
 import LicenseExpr.Lemmas.Spelled
+import LicenseExpr.Lemmas.KwValid
 import LicenseExpr.Model.Api
 /-!
 # C02 — valid expressions parse to the tree fixed by grammar and precedence
@@ -60,12 +61,12 @@ example : BP.parse [BP.Tok.sym 1, .or, .lpar, .sym 2, .and, .sym 3, .rpar, .and,
 /-- **C02 (text)**: for every syntactically valid expression — a skeleton `ts` derivable from the grammar —
     written as a text (`SegsFor`: operators and parentheses in any letter case, every license as any
     stored name of it in any case and spacing, an unknown license as words that occur in no stored
-    name, a pair as license, `with`, exception; whitespace arbitrary), over a table whose multi-word names contain no operator word or parenthesis, parsing
+    name, a pair as license, `with`, exception; whitespace arbitrary), over a table that `Licensing` accepts and whose multi-word names contain no operator word or parenthesis, parsing
     returns the tree the grammar and precedence fix. -/
-theorem C02_text (c : Cls) (hc : ClsOK c) (T : Table) (hop : OpWordFree c T) (hkw : KwOwned c T)
+theorem C02_text (c : Cls) (hc : ClsOK c) (T : Table) (hop : OpWordFree c T) (hacc : tableRefused c T = false)
     (ts : List (BP.Tok Atom)) (gs : List (List (Expr Atom))) (hd : BP.OrP ts gs)
     (segs : List (Seg TVal)) (hs : SegsFor c T ts segs) (text : Str) (hcov : segPieces segs = wordPieces c text) :
     parseFull c T false false false text = .ok (BP.orVal gs) :=
-  parse_spelled c hc T hop hkw ts segs hs text hcov _ (BP.complete hd)
+  parse_spelled c hc T hop (kwOwned_of_accepted c hc T hacc) ts segs hs text hcov _ (BP.complete hd)
 
 end LE
